@@ -7,9 +7,19 @@
   (`RankCert` is unique) and the pivots are the column rank profile (relative to `GaussOK`, discharged in
   M4riProofs/GaussOK.lean when present). The block-iterative / block-recursive algorithms themselves are not
   mirrored step by step (`…_partial`: per-input certification by a proven-sound checker).
+  Added (M4riProofs/PleNaive.lean): universal theorems for the naive routines — for EVERY matrix and EVERY initial
+  content of P and Q, `_mzd_ple_naive` / `_mzd_pluq_naive` return a valid factorisation (`pleNaive_good`,
+  `pluqNaive_good`), independent of the initial P, Q (`…_indep`), with r = rank and the pivots = column rank profile;
+  the checkers are COMPLETE as well as sound (`checkPLE_iff`, `checkPLUQ_iff`); and the block-recursive `_mzd_ple`
+  mirror (`Rec.pleRec`) over the naive base case is a valid PLE for every input (`pleRec_naive_good`). In Mathlib's
+  terms (`ML.checkPLUQ_mathlib`, `ML.checkPLE_mathlib`): A = p.permMatrix * (L * U) * q.permMatrix with L unit lower
+  trapezoidal, U unit upper / E echelon with strictly increasing pivots, rank = r.
 -/
 import M4riProofs.Checkers
 import M4riProofs.GaussOK
+import M4riProofs.PleNaive
+import M4riProofs.MathlibSpec
+import M4riProofs.TrsmRec
 namespace M4ri.Props.C03
 open M4ri M4ri.BMat
 
@@ -40,5 +50,28 @@ theorem ple_rank_and_profile {A S : BMat} {P Q : Array Nat} {r : Nat} (hA : A.WF
 
 theorem pluq_rank {A S : BMat} {P Q : Array Nat} {r : Nat} (hA : A.WF) (h : checkPLUQ A S P Q r = true) :
     r = A.rank := GOK.pluq_rank hA h
+
+#check @M4ri.BMat.PN.pleNaive_good
+#check @M4ri.BMat.PN.pleNaive_isPLE
+#check @M4ri.BMat.PN.pleNaive_indep
+#check @M4ri.BMat.PN.pleNaive_rank_profile
+#check @M4ri.BMat.PN.pluqNaive_good
+#check @M4ri.BMat.PN.pluqNaive_isPLUQ
+#check @M4ri.BMat.PN.pluqNaive_indep
+#check @M4ri.BMat.PN.pluqNaive_rank
+#check @M4ri.BMat.PN.checkPLE_iff
+#check @M4ri.BMat.PN.checkPLUQ_iff
+#check @M4ri.BMat.PN.checkPLE_pleNaive
+#check @M4ri.BMat.PN.checkPLUQ_pluqNaive
+#check @M4ri.BMat.PN.goodBase_naive
+#check @M4ri.BMat.PN.pleRec_naive_good
+#check @M4ri.BMat.PN.pleRec_naive_isPLE
+#check @M4ri.BMat.PN.pleRec_naive_rank
+#check @M4ri.BMat.ML.mat_of_isPLUQ
+#check @M4ri.BMat.ML.mat_of_isPLE
+#check @M4ri.BMat.ML.checkPLUQ_mathlib
+#check @M4ri.BMat.ML.checkPLE_mathlib
+#check @M4ri.BMat.ML.lapackPerm_eq_prod
+#check @M4ri.BMat.ML.mat_permMat
 
 end M4ri.Props.C03
